@@ -19,6 +19,7 @@ type RCase struct {
 	// the remaining bytes (at least 1), -2 = remaining + 1.
 	Reads   []int `json:"reads"`
 	PostEOF []int `json:"post_eof,omitempty"` // reads issued after the first EOF
+	PostErr []int `json:"post_err,omitempty"` // reads issued after the first non-EOF error
 	RDict   int   `json:"rdict,omitempty"`
 	Single  bool  `json:"single,omitempty"`
 	// Cut truncates the stream to this many bytes (C05); -1/0 with !HasCut = none.
@@ -51,6 +52,7 @@ type RResult struct {
 	MaxSrcCallsPerRead int
 	MaxEmptyPerRead    int
 	Post               []ReadRes // reads after the first EOF
+	PostErrReads       []ReadRes // reads after the first non-EOF error
 }
 
 func openReader(format string, src io.Reader, rdict int, single bool) (io.Reader, error) {
@@ -167,6 +169,34 @@ func runReader(format string, img []byte, want int, c *RCase, limit int, x *sim.
 		if i > 4_000_000 {
 			res.NoProg = true
 			break
+		}
+	}
+	if res.Final != nil && res.Final != io.EOF && res.Panic == nil {
+		// a caller that keeps reading after an error: still no panic, still bounded
+		for _, l := range c.PostErr {
+			p := make([]byte, l)
+			var n int
+			var err error
+			c0, e0 := src.Calls, src.Empty
+			pn := guard(func() { n, err = rd.Read(p) })
+			x.Step("api", 1)
+			if d := src.Calls - c0; d > res.MaxSrcCallsPerRead {
+				res.MaxSrcCallsPerRead = d
+			}
+			if d := src.Empty - e0; d > res.MaxEmptyPerRead {
+				res.MaxEmptyPerRead = d
+			}
+			if pn != nil {
+				res.Panic = pn
+				x.Ev("post-error read(%d) -> panic %s", l, pn.Value)
+				break
+			}
+			x.Ev("post-error read(%d) -> n=%d err=%v", l, n, err)
+			if n < 0 || n > l {
+				res.BadN = &ReadRes{Len: l, N: n, Err: err}
+				break
+			}
+			res.PostErrReads = append(res.PostErrReads, ReadRes{Len: l, N: n, Err: err})
 		}
 	}
 	if res.Final == io.EOF {
